@@ -43,6 +43,14 @@ def split_vals(vals):
     return out
 
 
+def fold_q(q):
+    """qualifiers as they are written: keys that differ only in letter case share one tag, whose values are the union"""
+    out = {}
+    for k, v in (q or {}).items():
+        out.setdefault(emitted_key(k), set()).update(split_vals(v))
+    return out
+
+
 def merge(a, b):
     out = {k: set(v) for k, v in a.items()}
     for k, v in (b or {}).items():
@@ -404,6 +412,15 @@ def normalize_ids(text):
     third-party reader hands children back, which the property does not constrain (ordering by start and
     parent-before-child are checked in the syntax leg)."""
     lines = [ln for ln in text.split("\n") if ln]
+    # the order of the attributes inside column 9 carries no meaning (the writer orders them by the source spelling of the keys,
+    # which a parsed collection no longer has: 'Xkey' is written, and read back, as 'xkey'): ID first, the others sorted
+    def _canon(ln):
+        cols = ln.split("\t")
+        if len(cols) == 9 and not ln.startswith("#"):
+            at = cols[8].split(";")
+            cols[8] = ";".join(at[:1] + sorted(at[1:]))
+        return "\t".join(cols)
+    lines = [_canon(ln) for ln in lines]
     occ = {}
     for ln in lines:
         masked = GUID_RE.sub("G", ln)
@@ -465,7 +482,7 @@ def check_reparse(spec, ctx):
         ctx.eq("gene_symbol", pg.gene_symbol, sg["gene_symbol"])
         ctx.eq("gene_locus_tag", pg.locus_tag, sg.get("locus_tag"))
         ctx.eq("gene_biotype", pg.gene_type.name if pg.gene_type else None, sg["gene_type"])
-        gq = {emitted_key(k): split_vals(v) for k, v in (sg.get("qualifiers") or {}).items()}
+        gq = fold_q(sg.get("qualifiers"))
         ctx.eq("gene_qualifiers", {k: set(v) for k, v in (pg.qualifiers or {}).items()}, gq)
         src_tx = {t["transcript_id"]: t for t in sg["transcripts"]}
         got_tx = {t.transcript_id: t for t in pg.transcripts}
@@ -486,7 +503,7 @@ def check_reparse(spec, ctx):
             else:
                 ctx.true("tx_cds_absent", pt.cds is None)
             # a parsed transcript carries its own qualifiers plus its gene's (children rows repeat their parents' qualifiers)
-            tq = merge({emitted_key(k): split_vals(v) for k, v in (stx.get("qualifiers") or {}).items()}, gq)
+            tq = merge(fold_q(stx.get("qualifiers")), gq)
             ctx.eq("tx_qualifiers", {k: set(v) for k, v in (pt.qualifiers or {}).items()}, tq)
     # re-export reproduces the file (up to digest-valued ID tokens), and is a fixpoint one round later
     def reexport(c):
@@ -538,7 +555,7 @@ def check_reparse_features(spec, ctx):
         ctx.eq("fc_name", pc.feature_collection_name, sc.get("feature_collection_name"))
         ctx.eq("fc_span", (pc.start, pc.end), (lo, hi))
         ctx.eq("fc_sequence_name", pc.sequence_name, "chr1")
-        cq = {emitted_key(k): split_vals(v) for k, v in (sc.get("qualifiers") or {}).items()}
+        cq = fold_q(sc.get("qualifiers"))
         ctx.eq("fc_qualifiers", {k: set(v) for k, v in (pc.qualifiers or {}).items()}, cq)
         src_types = set(t for f in feats for t in (f.get("feature_types") or []))
         got_types = set(t for f in pc.feature_intervals for t in (f.feature_types or []))
@@ -656,7 +673,9 @@ def qual_strategy(specials=True, allow_comma=True, allow_dquote=True, lookalikes
         alpha = alpha.replace('"', "")
     keys = ["note", "color", "evidence", "db_xref", "inference", "xkey"]
     if lookalikes:
-        keys += ["identity", "names", "parental", "product_x", "idx", "Note", "Dbxref", "gene_synonym", "label2"]
+        keys += ["identity", "names", "parental", "product_x", "idx", "Note", "Dbxref", "gene_synonym", "label2",
+                 # keys that differ from another key only in letter case (GenBank- and GFF3-derived qualifiers combined)
+                 "Color", "EVIDENCE", "ec_number", "EC_number", "Xkey"]
     if reserved:
         keys += ["ID", "Name", "Parent"]
     val = st.text(alphabet=alpha, min_size=1, max_size=7)
